@@ -13,9 +13,20 @@ val length : 'a1 list -> nat
 
 val app : 'a1 list -> 'a1 list -> 'a1 list
 
+val add : nat -> nat -> nat
+
+module Nat :
+ sig
+  val min : nat -> nat -> nat
+ end
+
 val existsb : ('a1 -> bool) -> 'a1 list -> bool
 
 val filter : ('a1 -> bool) -> 'a1 list -> 'a1 list
+
+val firstn : nat -> 'a1 list -> 'a1 list
+
+val skipn : nat -> 'a1 list -> 'a1 list
 
 type positive =
 | XI of positive
@@ -61,6 +72,10 @@ module Coq_Pos :
 
   val eqb : positive -> positive -> bool
 
+  val iter_op : ('a1 -> 'a1 -> 'a1) -> positive -> 'a1 -> 'a1
+
+  val to_nat : positive -> nat
+
   val of_succ_nat : nat -> positive
  end
 
@@ -71,6 +86,8 @@ module N :
   val sub : n -> n -> n
 
   val eqb : n -> n -> bool
+
+  val to_nat : n -> nat
 
   val of_nat : nat -> n
  end
@@ -226,6 +243,18 @@ type trr =
 
 val try_recv_core : st -> st * trr
 
+val skip_nw : (n -> fut option) -> (n * n) list -> (n * n) list
+
+val hand_one_recv : st -> st
+
+val send_loop : n list -> st -> st * n list
+
+val wake_senders : nat -> st -> st
+
+val drain : nat -> st -> st
+
+val seqN : n -> nat -> n list
+
 type res =
 | ROk
 | RFull of n
@@ -250,6 +279,12 @@ type res =
 | RReadyDisc
 | RObs of n * bool * bool * n * bool
 | RPanic
+| RBOk of n
+| RBErr of n * bool * n list
+| RMOk of n * n list
+| RMClosed of n list
+| RVals of n list
+| RNVals of n list
 
 type out = { o_res : res; o_wakes : n list; o_drops : n list; o_bad : bool }
 
@@ -268,6 +303,8 @@ type op =
 | MkRecv of n * n
 | Poll of n * n
 | DropF of n
+| TrySendBatch of bool * n * n
+| TryRecvBatch of bool * n * n
 
 val close_tx : st -> st option
 
